@@ -27,6 +27,9 @@ MInit == [
     arr    |-> <<>>,      \* <<t, id>> of immediate submissions that arrived while the function was idle
     dirty  |-> FALSE,     \* something makes this window's timing not subject to C08_Quiet/Together
     pj     |-> NoJ,       \* pending judgement of the last FuncStart (ties are decided by later events)
+    lastImm |-> -1,       \* time of the latest immediate submission (C08_Quiet, whether or not the function was idle)
+    flush  |-> FALSE,     \* a forced flush (wait(cancel=True) / shutdown) or a non-immediate submission since the last call
+    qj     |-> [on |-> FALSE, t |-> 0, la |-> 0],
     bad    |-> [p \in Props |-> Ok]]
 
 ElemsOf(m, ids) == {x \in DOMAIN m.prod : m.prod[x] \in ids}
@@ -35,6 +38,12 @@ ArrIds(m) == {m.arr[i][2] : i \in 1..Len(m.arr)}
 GapsOk(m) == \A i \in 1..(Len(m.arr) - 1) : m.arr[i + 1][1] - m.arr[i][1] < m.tau
 
 \* settle the pending judgement once time has moved past it
+JudgeQ(m, idx) ==
+    IF ~m.qj.on THEN m
+    ELSE [m EXCEPT !.qj.on = FALSE,
+                   !.bad = IF m.qj.t - m.qj.la > 0 /\ m.qj.t - m.qj.la < m.tau
+                           THEN Flag(@, "C08", "C08_Quiet", idx) ELSE @]
+
 Judge(m, idx) ==
     IF ~m.pj.on THEN m
     ELSE LET j == m.pj
@@ -45,14 +54,18 @@ Judge(m, idx) ==
          IN [m EXCEPT !.pj = NoJ, !.bad = b2]
 
 MStep(mm, e, idx) ==
-  LET m == IF mm.pj.on /\ e.t > mm.pj.t THEN Judge(mm, idx) ELSE mm IN
+  LET m1q == IF mm.qj.on /\ e.t > mm.qj.t THEN JudgeQ(mm, idx) ELSE mm
+      m == IF m1q.pj.on /\ e.t > m1q.pj.t THEN Judge(m1q, idx) ELSE m1q IN
   CASE e.e = "Config" -> [m EXCEPT !.tau = e.tau]
     [] e.e = "Submit" ->
         LET tie == \/ (m.pj.on /\ e.t = m.pj.t)
                    \/ (Len(m.arr) > 0 /\ e.t - m.arr[Len(m.arr)][1] = m.tau)
             m1 == [m EXCEPT !.sub = Put(@, e.id, [thr |-> e.thr, imm |-> e.imm, t |-> e.t, fin |-> FALSE]),
-                            !.pj = IF m.pj.on /\ e.t = m.pj.t THEN NoJ ELSE @]
-        IN IF tie \/ ~e.imm \/ m.cur # 0 \/ e.thr # "L1"
+                            !.pj = IF m.pj.on /\ e.t = m.pj.t THEN NoJ ELSE @,
+                            !.qj = IF m.qj.on /\ e.t = m.qj.t THEN [@ EXCEPT !.on = FALSE] ELSE @,
+                            !.lastImm = IF e.imm THEN e.t ELSE @,
+                            !.flush = IF e.imm THEN @ ELSE TRUE]
+        IN IF tie \/ ~e.imm \/ m.cur # 0
            THEN [m1 EXCEPT !.dirty = TRUE]
            ELSE \* a burst that produced no element caused (rightly) no call: it does not count
                 IF Len(m.arr) > 0 /\ e.t - m.arr[Len(m.arr)][1] > m.tau /\ ElemsOf(m, ArrIds(m)) = {}
@@ -70,6 +83,10 @@ MStep(mm, e, idx) ==
                   THEN Flag(b4, "C03", "C03_ExactlyOnce", idx) ELSE b4
             judge == ~m.dirty /\ Len(m.arr) > 0 /\ m.lastFail = {} /\ Unfinished(m) = {}
         IN [m EXCEPT !.cur = e.n, !.curS = S, !.bad = b5,
+                     !.qj = IF ~m.flush /\ m.lastImm >= 0 /\ Unfinished(m) = {}
+                               /\ ~(\E w \in DOMAIN m.waits : m.waits[w].pend /\ m.waits[w].cancel)
+                            THEN [on |-> TRUE, t |-> e.t, la |-> m.lastImm] ELSE [@ EXCEPT !.on = FALSE],
+                     !.flush = FALSE,
                      !.pj = IF judge
                             THEN [on |-> TRUE, t |-> e.t, la |-> m.arr[Len(m.arr)][1], S |-> S,
                                   want |-> ElemsOf(m, ArrIds(m)), late |-> ~GapsOk(m)]
@@ -83,9 +100,11 @@ MStep(mm, e, idx) ==
                   !.dirty = (e.how # "ok") \/ (\E i \in DOMAIN m.sub : m.sub[i].t >= 0 /\ ~(ElemsOf(m, {i}) \subseteq (m.okset \cup m.curS)))
                             \/ Unfinished(m) # {}]
     [] e.e = "WaitCall" ->
-        [m EXCEPT !.waits = Put(@, e.w, [thr |-> e.thr, pend |-> TRUE,
+        [m EXCEPT !.waits = Put(@, e.w, [thr |-> e.thr, pend |-> TRUE, cancel |-> e.cancel,
                                          before |-> {i \in DOMAIN m.sub : m.sub[i].thr = e.thr}]),
                   !.dirty = IF e.cancel THEN TRUE ELSE @,
+                  !.flush = IF e.cancel THEN TRUE ELSE @,
+                  !.qj = IF e.cancel /\ m.qj.on /\ e.t = m.qj.t THEN [@ EXCEPT !.on = FALSE] ELSE @,
                   !.pj = IF e.cancel /\ m.pj.on /\ e.t = m.pj.t THEN NoJ ELSE @]
     [] e.e = "WaitRet" ->
         LET w == m.waits[e.w]
@@ -97,11 +116,12 @@ MStep(mm, e, idx) ==
         LET b1 == IF DOMAIN m.prod \subseteq m.okset THEN m.bad ELSE Flag(m.bad, "C03", "C03_AllDelivered", idx)
             b2 == IF \E w \in DOMAIN m.waits : m.waits[w].pend THEN Flag(b1, "C07", "C07_Returns", idx) ELSE b1
         IN [m EXCEPT !.bad = b2]
-    [] e.e = "Shutdown" -> [m EXCEPT !.shut = "begun", !.dirty = TRUE,
+    [] e.e = "Shutdown" -> [m EXCEPT !.shut = "begun", !.dirty = TRUE, !.flush = TRUE,
+                                     !.qj = IF m.qj.on /\ e.t = m.qj.t THEN [@ EXCEPT !.on = FALSE] ELSE @,
                                      !.pj = IF m.pj.on /\ e.t = m.pj.t THEN NoJ ELSE @]
     [] e.e = "ShutdownDone" -> [m EXCEPT !.shut = "done"]
     [] e.e = "End" ->
-        LET m2 == Judge(m, idx)
+        LET m2 == Judge(JudgeQ(m, idx), idx)
             b1 == IF m2.shut = "begun" THEN Flag(m2.bad, "C07", "C07_ShutdownTerminates", idx) ELSE m2.bad
             b2 == IF e.status # "ok" /\ m2.shut = "no"
                   THEN Flag(Flag(b1, "C03", "C03_Hang", idx), "C07", "C07_Returns", idx) ELSE b1
